@@ -39,6 +39,7 @@ func c02Gen(t *rapid.T) vPipeCase {
 	}
 	c.Pulses = vGenPulses(t, c.Nchan, c.Nsamp, c.Blocks, 8)
 	c.SlowPub = rapid.IntRange(0, 11).Draw(t, "slowpub") == 0
+	c.ViaRPC = rapid.IntRange(0, 2).Draw(t, "viarpc") == 0
 	all := make([]int, c.Nchan)
 	for i := range all {
 		all[i] = i
@@ -339,6 +340,9 @@ func c02Run(c vPipeCase) (v vVerdict) {
 	}
 	if connected {
 		classes["group-trigger-receiver"] = true
+	}
+	if c.ViaRPC {
+		classes["requests-through-rpc-layer"] = true
 	}
 	if c.RateHz > 0 {
 		classes["odd-sample-rate"] = true
